@@ -113,6 +113,7 @@ func registerVX() {
 	})
 	reg("Note", func(in *Interp, c *frame, fn *ssa.Function, a []Value) Value {
 		in.p.notes = append(in.p.notes, showValue(a[0], 0))
+		in.p.userNotes = append(in.p.userNotes, noteString(a[0]))
 		return nil
 	})
 	reg("MaxSteps", func(in *Interp, c *frame, fn *ssa.Function, a []Value) Value {
@@ -204,4 +205,42 @@ func registerVX() {
 		in.cur = c
 		return nil
 	})
+}
+
+// noteString renders a value the same way the native vx.Note does.
+func noteString(v Value) string {
+	if ifc, ok := v.(Iface); ok {
+		if ifc.t == nil {
+			return "nil"
+		}
+		v = ifc.v
+	}
+	switch x := v.(type) {
+	case *Term:
+		if !x.IsConst() {
+			return "sym"
+		}
+		if x.w == 0 {
+			if x.val != 0 {
+				return "true"
+			}
+			return "false"
+		}
+		return fmt.Sprintf("%d", x.val)
+	case string:
+		return fmt.Sprintf("%q", x)
+	case *SymStr:
+		return "symstr"
+	case Slice:
+		b := make([]byte, 0, len(x))
+		for _, e := range x {
+			t, ok := e.(*Term)
+			if !ok || !t.IsConst() || t.w != 8 {
+				return "?"
+			}
+			b = append(b, byte(t.val))
+		}
+		return fmt.Sprintf("%q", string(b))
+	}
+	return "?"
 }
